@@ -150,6 +150,10 @@ class Ctx:
         }
         if self.self_test is not None:
             cov["self_test"] = self.self_test
+        if os.environ.get("FBR_DUMP_FUNCS"):
+            # development aid (tools/mutants.py): which functions this check looked at
+            os.makedirs(os.environ["FBR_DUMP_FUNCS"], exist_ok=True)
+            json.dump(sorted(self.functions), open(os.path.join(os.environ["FBR_DUMP_FUNCS"], self.pid + ".json"), "w"))
         cov.update(self.extra)
         ev = {
             "property_id": self.pid,
